@@ -72,6 +72,35 @@ impl Storage for NullStorage {
     async fn max_size(&self) -> sccache::errors::Result<Option<u64>> { Ok(None) }
 }
 
+/// phase 2: a build server that records the translation unit it is handed and "compiles" it: a unit holding BROKEN_STMT
+/// fails with exit 1, any other unit (an empty one too, as with a real compiler) yields an object derived from the unit
+struct RecDist { units: std::sync::Mutex<Vec<Vec<u8>>>, src_name: String }
+#[async_trait::async_trait]
+impl dist::Client for RecDist {
+    async fn do_alloc_job(&self, _tc: Toolchain) -> sccache::errors::Result<AllocJobResult> {
+        Ok(AllocJobResult::Success { job_alloc: JobAlloc { auth: "a".into(), job_id: JobId(9), server_id: ServerId::new("127.0.0.1:1".parse().unwrap()) }, need_toolchain: false })
+    }
+    async fn do_get_status(&self) -> sccache::errors::Result<dist::SchedulerStatusResult> { Err(anyhow::anyhow!("unused")) }
+    async fn do_submit_toolchain(&self, _j: JobAlloc, _tc: Toolchain) -> sccache::errors::Result<SubmitToolchainResult> { Ok(SubmitToolchainResult::Success) }
+    async fn do_run_job(&self, _j: JobAlloc, _c: dist::CompileCommand, outputs: Vec<String>, i: Box<dyn dist::pkg::InputsPackager>) -> sccache::errors::Result<(RunJobResult, PathTransformer)> {
+        use std::io::Read; use std::os::unix::process::ExitStatusExt;
+        let mut inputs = vec![]; let pt = i.write_inputs(&mut inputs)?;
+        let mut unit: Vec<u8> = b"<<no entry for the source in the inputs package>>".to_vec();
+        let mut ar = tar::Archive::new(inputs.as_slice());
+        for e in ar.entries()? { let mut e = e?; if e.path()?.ends_with(&self.src_name) { let mut d = vec![]; e.read_to_end(&mut d)?; unit = d; } }
+        let broken = unit.windows(11).any(|w| w == b"BROKEN_STMT");
+        self.units.lock().unwrap().push(unit.clone());
+        let code = if broken { 1 } else { 0 };
+        let output = ProcessOutput::try_from(std::process::Output { status: std::process::ExitStatus::from_raw(code << 8), stdout: vec![], stderr: if broken { b"s.c:2: error: BROKEN_STMT\n".to_vec() } else { vec![] } }).unwrap();
+        let obj = format!("REMOTE-OBJ:{}", blake3::hash(&unit).to_hex());
+        let outs = if broken { vec![] } else { outputs.iter().map(|p| (p.clone(), od(obj.as_bytes()))).collect() };
+        Ok((RunJobResult::Complete(JobComplete { output, outputs: outs }), pt))
+    }
+    async fn put_toolchain(&self, _p: PathBuf, _k: String, _t: Box<dyn dist::pkg::ToolchainPackager>) -> sccache::errors::Result<(Toolchain, Option<(String, PathBuf)>)> { Ok((Toolchain { archive_id: "tc".into() }, None)) }
+    fn rewrite_includes_only(&self) -> bool { false }
+    fn get_custom_toolchain(&self, _exe: &Path) -> Option<PathBuf> { None }
+}
+
 fn main() {
     let a: Vec<String> = std::env::args().collect();
     let mut tr = std::io::BufWriter::new(std::fs::File::create(&a[1]).unwrap()); let mut fails: Vec<String> = vec![]; let mut samples: Vec<String> = vec![];
@@ -128,5 +157,83 @@ fn main() {
         if !reported && name != "None" && !name.starts_with("RunExit") && !(res.0 == "CacheMiss ok=true" && file == "ELF" && ran == 1) { fails.push(fail_json("no_fallback", &format!("{}: a failed distributed job must fall back to the local compiler but the result is {} (object {}, local compiler ran {}x)", name, res.0, file, ran), &[line.clone()], "")); }
         if let Fault::RunExit(c) = fault { if res.0 != format!("CompileFailed code=Some({})", c) { fails.push(fail_json("remote_exit_status_lost", &format!("remote compiler exited with {} but the result is {}", c, res.0), &[line.clone()], "")); } }
     }
-    std::fs::write(&a[2], format!("{{\"cases\":{},\"monitor_failures\":[{}],\"samples\":[{}]}}", n, fails.join(","), samples.iter().map(|s| jstr(s)).collect::<Vec<_>>().join(","))).unwrap();
+    // ---- phase 2: request histories against a real disk cache in preprocessor-cache mode; the build server must always be
+    //      handed the preprocessed text of the *current* source and headers, and results must be those of the current inputs
+    let mut hist_steps = 0u64;
+    {
+        let cache_dir = tmp.path().join("cache2");
+        let storage2: Arc<dyn Storage> = Arc::new(DiskCache::new(&cache_dir, u64::MAX, &pool, sccache::config::PreprocessorCacheModeConfig::activated(), CacheMode::ReadWrite));
+        let service2 = sccache::server::SccacheService::<ProcessCommandCreator>::mock_with_storage(storage2.clone(), pool.clone());
+        let w2 = tmp.path().join("w2"); std::fs::create_dir_all(&w2).unwrap();
+        let rec = Arc::new(RecDist { units: std::sync::Mutex::new(vec![]), src_name: "s.c".into() });
+        let dc: Arc<dyn dist::Client> = rec.clone();
+        let write_old = |name: &str, body: &str| { let p = w2.join(name); std::fs::write(&p, body).unwrap(); filetime::set_file_mtime(&p, filetime::FileTime::from_unix_time(1_600_000_000, 0)).unwrap(); };
+        let args: Vec<OsString> = vec!["-c".into(), "s.c".into(), "-o".into(), "s.o".into()];
+        let mut trace2: Vec<String> = vec![];
+        #[derive(Clone, Copy, PartialEq, Debug)] enum Want { Fail, Ok }
+        let script: Vec<(&str, Option<(&str, String)>, Want)> = vec![
+            ("broken source, first request", Some(("s.c", "#include \"h.h\"\nint marker_src_1(void) { return HDR_1 BROKEN_STMT ; }\n".into())), Want::Fail),
+            ("the same failing request again", Option::None, Want::Fail),
+            ("source repaired", Some(("s.c", "#include \"h.h\"\nint marker_src_2(void) { return HDR_1; }\n".into())), Want::Ok),
+            ("the same request again", Option::None, Want::Ok),
+            ("result entries removed from the cache directory (preprocessor entries kept)", Option::None, Want::Ok),
+            ("header edited", Some(("h.h", "#define HDR_1 7\n/* marker_hdr_2 */\nint marker_hdr_2;\n".into())), Want::Ok),
+            ("the same request again", Option::None, Want::Ok),
+            ("source broken again", Some(("s.c", "#include \"h.h\"\nint marker_src_3(void) { return HDR_1 BROKEN_STMT ; }\n".into())), Want::Fail),
+            ("the same failing request again", Option::None, Want::Fail),
+        ];
+        write_old("h.h", "#define HDR_1 1\nint marker_hdr_1;\n");
+        let (mut cur_src, mut cur_hdr) = (String::new(), "marker_hdr_1".to_string());
+        for (si, (note, edit, want)) in script.iter().enumerate() {
+            if let Some((f, body)) = edit {
+                write_old(f, body);
+                if *f == "s.c" { cur_src = format!("marker_src_{}", body.split("marker_src_").nth(1).unwrap().chars().next().unwrap()); } else { cur_hdr = "marker_hdr_2".into(); }
+            }
+            if si == 0 || edit.is_some() { std::thread::sleep(Duration::from_millis(1100)); }       // inputs must be older than the start of the compile for preprocessor-cache mode
+            if note.starts_with("result entries removed") {
+                for e in walk(&cache_dir) { if !e.strip_prefix(&cache_dir).unwrap().starts_with("preprocessor") { let _ = std::fs::remove_file(&e); } }
+            }
+            let _ = std::fs::remove_file(w2.join("s.o"));
+            let n_before = rec.units.lock().unwrap().len();
+            let res = rt.block_on(async {
+                let (compiler, _) = get_compiler_info(creator.clone(), &wrapper, &w2, &args, &env, &pool, Option::None).await.unwrap();
+                let hasher = match compiler.parse_arguments(&args, &w2, &env) { CompilerArguments::Ok(h) => h, _ => panic!("parse") };
+                match hasher.get_cached_or_compile(&service2, Some(dc.clone()), creator.clone(), storage2.clone(), args.clone(), w2.clone(), env.clone(), CacheControl::Default, pool.clone()).await {
+                    Err(e) => format!("Err({:#})", e).chars().take(80).collect::<String>(),
+                    Ok((cr, out)) => match cr {
+                        CompileResult::CacheMiss(_, _, _, fut) => { let _ = fut.await; format!("CacheMiss code={:?}", out.status.code()) }
+                        CompileResult::CompileFailed(_, _) => format!("CompileFailed code={:?}", out.status.code()),
+                        CompileResult::CacheHit(_) => format!("CacheHit code={:?}", out.status.code()),
+                        other => format!("{:?}", other),
+                    },
+                }
+            });
+            hist_steps += 1;
+            let units = rec.units.lock().unwrap(); let new_units: Vec<&Vec<u8>> = units[n_before..].iter().collect();
+            let obj = std::fs::read(w2.join("s.o")).ok();
+            let line = format!("{}: {} ; build server called {}x ; object {}", note, res, new_units.len(), match &obj { Option::None => "absent".to_string(), Some(b) => String::from_utf8_lossy(&b[..b.len().min(19)]).to_string() });
+            trace2.push(line.clone());
+            let has = |u: &Vec<u8>, m: &str| u.windows(m.len()).any(|w| w == m.as_bytes());
+            for u in &new_units {
+                if !has(u, &cur_src) || !has(u, &cur_hdr) { fails.push(fail_json("remote_unit_not_current_preprocessed_source", &format!("[{}] the build server was handed a unit of {} bytes that lacks the text of the current source/header ({} / {})", note, u.len(), cur_src, cur_hdr), &trace2, "")); }
+            }
+            match want {
+                Want::Fail => if !(res == "CompileFailed code=Some(1)" && obj.is_none()) { fails.push(fail_json("dist_result_differs_from_local", &format!("[{}] a local compile of this source fails with status 1 and leaves no object; got {}, object {}", note, res, if obj.is_some() { "present" } else { "absent" }), &trace2, "")); },
+                Want::Ok => {
+                    let okres = res == "CacheMiss code=Some(0)" || res == "CacheHit code=Some(0)";
+                    let fresh = new_units.last().map(|u| format!("REMOTE-OBJ:{}", blake3::hash(u).to_hex()).into_bytes());
+                    let good_obj = match (&obj, &fresh) { (Some(o), Some(f)) => o == f, (Some(o), Option::None) => o.starts_with(b"REMOTE-OBJ:"), _ => false };
+                    if !okres || !good_obj { fails.push(fail_json("dist_result_differs_from_local", &format!("[{}] expected success with the object of the current inputs; got {}, object {}", note, res, if good_obj { "ok" } else { "wrong/absent" }), &trace2, "")); }
+                }
+            }
+        }
+        samples.push(trace2.join(" | "));
+    }
+    std::fs::write(&a[2], format!("{{\"history_steps\":{},\"cases\":{},\"monitor_failures\":[{}],\"samples\":[{}]}}", hist_steps, n, fails.join(","), samples.iter().map(|s| jstr(s)).collect::<Vec<_>>().join(","))).unwrap();
+}
+
+fn walk(d: &Path) -> Vec<PathBuf> {
+    let mut out = vec![];
+    if let Ok(rd) = std::fs::read_dir(d) { for e in rd.flatten() { let p = e.path(); if p.is_dir() { out.extend(walk(&p)); } else { out.push(p); } } }
+    out
 }
